@@ -42,6 +42,37 @@ def nvra_roundtrip(sym, with_dir, with_epoch, with_rpm, n_name, n_ver, n_rel, n_
     sym.check("keys", sorted(res.keys()) == ["arch", "epoch", "name", "release", "version"])
 
 
+def nvra_history(sym, second_rpm, edit):
+    """what a call returns never depends on earlier calls or on what the caller did with earlier results: the same (or another)
+    string is parsed after the caller has edited the dictionary it got the first time"""
+    def parts(tag):
+        name = sym.str("name" + tag, 2, minlen=1, alphabet=["a-z", "0-9"])
+        version = sym.str("version" + tag, 2, minlen=1, alphabet=["0-9", "."])
+        release = sym.str("release" + tag, 2, minlen=1, alphabet=["0-9", "a-z"])
+        arch = sym.one_of("arch" + tag, ["x86_64", "noarch", "src"])
+        return name, version, release, arch
+    a = parts("A")
+    b = parts("B")          # free: the solver may make it equal to a, or not
+    text_a = a[0] + "-" + a[1] + "-" + a[2] + "." + a[3]
+    text_b = b[0] + "-" + b[1] + "-" + b[2] + "." + b[3] + (".rpm" if second_rpm else "")
+    first = parse_nvra(text_a)
+    sym.cover("built")
+    if edit:
+        first["name"] = "edited"
+        first["arch"] = "src"
+        first["epoch"] = 7
+    res = parse_nvra(text_b)
+    sym.cover("parsed")
+    sym.check("second-call-name", res["name"] == b[0])
+    sym.check("second-call-epoch", res["epoch"] == 0)
+    sym.check("second-call-version", res["version"] == b[1])
+    sym.check("second-call-release", res["release"] == b[2])
+    sym.check("second-call-arch", res["arch"] == b[3])
+    if not edit:
+        sym.check("first-result-untouched-by-the-second-call", sym.and_(first["name"] == a[0], first["version"] == a[1], first["release"] == a[2],
+                                                                       first["arch"] == a[3], first["epoch"] == 0))
+
+
 def check_nevra_canonical(sym, with_dir, with_rpm, n_name, n_ver, n_rel, n_dir):
     """Rpms._check_nevra re-formats the parsed parts canonically: name-epoch:version-release.arch.
     With with_dir = with_rpm = False the input is itself canonical, i.e. this is the fixed point claim."""
@@ -75,6 +106,9 @@ def jobs(tier, seed):
     for with_dir, with_epoch, with_rpm in ((False, False, False), (False, True, True), (True, False, True), (True, True, False)):
         out.append({"harness": "nvra_roundtrip",
                     "params": {"with_dir": with_dir, "with_epoch": with_epoch, "with_rpm": with_rpm, "n_name": 3, "n_ver": 2, "n_rel": 2, "n_dir": 2}})
+    for second_rpm in (False, True):
+        for edit in (True, False):
+            out.append({"harness": "nvra_history", "params": {"second_rpm": second_rpm, "edit": edit}})
     for with_dir in (False, True):
         for with_epoch in (False, True):
             for with_rpm in (False, True):
@@ -91,6 +125,6 @@ def jobs(tier, seed):
 
 
 META = {
-    "expected_covers": {"nvra_roundtrip": ["built", "parsed"], "check_nevra_canonical": ["built", "checked"]},
+    "expected_covers": {"nvra_history": ["built", "parsed"], "nvra_roundtrip": ["built", "parsed"], "check_nevra_canonical": ["built", "checked"]},
     "assumptions": [],
 }
